@@ -2775,12 +2775,27 @@ func ruleContinuation(p *Program, r *Reporter) {
 			continue
 		}
 		for _, b := range fn.Blocks {
-			iff, ok := terminator(b).(*ssa.If)
-			if !ok {
-				continue
+			// the comparison: the condition of a branch, or — in a helper that
+			// answers "a continuation is ahead" — a value on its way to the result
+			var bo *ssa.BinOp
+			isCond := false
+			if iff, ok := terminator(b).(*ssa.If); ok {
+				if x, ok := iff.Cond.(*ssa.BinOp); ok && x.Op == token.EQL {
+					bo, isCond = x, true
+				}
 			}
-			bo, ok := iff.Cond.(*ssa.BinOp)
-			if !ok || bo.Op != token.EQL {
+			if bo == nil {
+				for _, ins := range b.Instrs {
+					if x, ok := ins.(*ssa.BinOp); ok && x.Op == token.EQL {
+						if _, isK := constRune(x.Y); isK {
+							bo = x
+						} else if _, isK := constRune(x.X); isK {
+							bo = x
+						}
+					}
+				}
+			}
+			if bo == nil {
 				continue
 			}
 			// <something> == '\n' …
@@ -2823,7 +2838,7 @@ func ruleContinuation(p *Program, r *Reporter) {
 			}
 			// the loop this is in
 			var head *ssa.BasicBlock
-			for h := b; h != nil; h = h.Idom() {
+			for h := b; h != nil && isCond; h = h.Idom() {
 				for _, pd := range h.Preds {
 					if h.Dominates(pd) && (pd == b || blockReaches(b, pd, nil)) {
 						head = h
@@ -2833,42 +2848,84 @@ func ruleContinuation(p *Program, r *Reporter) {
 					break
 				}
 			}
-			if head == nil {
-				continue
-			}
-			n++
-			key := p.FnName(fn) + "/a backslash before a line feed only joins the lines"
-			bad := ""
-			var badPos token.Pos
-			seen := map[*ssa.BasicBlock]bool{}
-			var walk func(x *ssa.BasicBlock)
-			walk = func(x *ssa.BasicBlock) {
-				if seen[x] || x == head || bad != "" {
-					return
-				}
-				seen[x] = true
-				for _, ins := range x.Instrs {
-					switch y := ins.(type) {
-					case *ssa.Store:
-						if fieldKey(y.Addr) == "lexer.Lexer.ch" {
-							bad, badPos = "the current character is rewritten (the translation of escapes)", y.Pos()
+			// judge: from the block entered when the continuation is seen, back
+			// to the head of the loop
+			judge := func(gfn *ssa.Function, from, head *ssa.BasicBlock) {
+				n++
+				key := p.FnName(gfn) + "/a backslash before a line feed only joins the lines"
+				bad := ""
+				var badPos token.Pos
+				seen := map[*ssa.BasicBlock]bool{}
+				var walk func(x *ssa.BasicBlock)
+				walk = func(x *ssa.BasicBlock) {
+					if seen[x] || x == head || bad != "" {
+						return
+					}
+					seen[x] = true
+					for _, ins := range x.Instrs {
+						switch y := ins.(type) {
+						case *ssa.Store:
+							if fieldKey(y.Addr) == "lexer.Lexer.ch" {
+								bad, badPos = "the current character is rewritten (the translation of escapes)", y.Pos()
+							}
+						case *ssa.BinOp:
+							if bt, ok := y.Type().Underlying().(*types.Basic); ok && bt.Info()&types.IsString != 0 && y.Op == token.ADD {
+								bad, badPos = "a character is added to the text", y.Pos()
+							}
 						}
-					case *ssa.BinOp:
-						if bt, ok := y.Type().Underlying().(*types.Basic); ok && bt.Info()&types.IsString != 0 && y.Op == token.ADD {
-							bad, badPos = "a character is added to the text", y.Pos()
+					}
+					for _, s := range x.Succs {
+						walk(s)
+					}
+				}
+				walk(from)
+				if bad != "" {
+					r.Fail(key, p.Pos(posOr(badPos, firstPos(from))), "after the line feed has been consumed, and before the loop starts over, "+bad+": the first character of the continued line is treated as the character after a backslash — `\"one\\<newline>two\"` becomes `one<TAB>wo`, a quote there no longer ends the string")
+				} else {
+					r.OkNT(key, p.Pos(firstPos(from)), "the branch returns to the head of the loop without touching the text or the current character")
+				}
+			}
+			loopHeadOf := func(x *ssa.BasicBlock) *ssa.BasicBlock {
+				for h := x; h != nil; h = h.Idom() {
+					for _, pd := range h.Preds {
+						if h.Dominates(pd) && (pd == x || blockReaches(x, pd, nil)) {
+							return h
 						}
 					}
 				}
-				for _, s := range x.Succs {
-					walk(s)
+				return nil
+			}
+			if head == nil {
+				// the test kept in a helper that says "a continuation is ahead":
+				// judged where the helper's answer is acted upon
+				if rs := sigResults(fn); len(rs) == 1 && isBoolType(rs[0]) && fn.Parent() == nil {
+					for _, g := range lexerFns(p) {
+						for _, gb := range g.Blocks {
+							gi, ok := terminator(gb).(*ssa.If)
+							if !ok {
+								continue
+							}
+							cond, neg := gi.Cond, false
+							if u, ok := cond.(*ssa.UnOp); ok && u.Op == token.NOT {
+								cond, neg = u.X, true
+							}
+							c, ok := cond.(*ssa.Call)
+							if !ok || c.Call.StaticCallee() != fn {
+								continue
+							}
+							from := gb.Succs[0]
+							if neg {
+								from = gb.Succs[1]
+							}
+							if h := loopHeadOf(gb); h != nil {
+								judge(g, from, h)
+							}
+						}
+					}
 				}
+				continue
 			}
-			walk(b.Succs[0])
-			if bad != "" {
-				r.Fail(key, p.Pos(posOr(badPos, firstPos(b))), "after the line feed has been consumed, and before the loop starts over, "+bad+": the first character of the continued line is treated as the character after a backslash — `\"one\\<newline>two\"` becomes `one<TAB>wo`, a quote there no longer ends the string")
-			} else {
-				r.OkNT(key, p.Pos(firstPos(b)), "the branch returns to the head of the loop without touching the text or the current character")
-			}
+			judge(fn, b.Succs[0], head)
 		}
 	}
 	if n == 0 {
@@ -2919,6 +2976,20 @@ func ruleStdContract(p *Program, r *Reporter) {
 			seen[f] = true
 			for _, b := range f.Blocks {
 				for _, ins := range b.Instrs {
+					// a library function handed on as a value (`convertText(args,
+					// strings.ToLower)`) does the work where it is called
+					for _, op := range ins.Operands(nil) {
+						if op == nil || *op == nil {
+							continue
+						}
+						if f, ok := (*op).(*ssa.Function); ok && f.Pkg != nil && !IsLibPath(f.Pkg.Pkg.Path()) && f.Object() != nil {
+							if cc0 := callOf(ins); cc0 == nil || cc0.Value != ssa.Value(f) {
+								if fo, ok := f.Object().(*types.Func); ok {
+									called[fo.FullName()] = ins.Pos()
+								}
+							}
+						}
+					}
 					cc := callOf(ins)
 					if cc == nil || cc.StaticCallee() == nil {
 						continue
